@@ -12,7 +12,7 @@ import (
 
 func init() {
 	register("C09", propMeta{
-		Explanation: "Reader-contract rule + E-CONST + E-GUARD + E-PANIC on common/encapsulation and its stream feeders. O-1 reader contract: every call of a Read([]byte) (int, error) method must use its count result (or return the pair unchanged), or the read must go through io.ReadFull/ReadAtLeast/CopyN/Copy, which implement the contract for zero-length reads, short reads and data returned together with io.EOF; quick scope: encapsulation and the two packet adapters, thorough: every package. O-1b one reader per stream: the reader handed to encapsulation.ReadData is a pre-existing stream object, not a buffering reader constructed for the single call (its read-ahead would be discarded between packets). O-2 allocation bounded by the announced length: in ReadData the length is built from one byte masked with 0x3f and at most K further bytes masked with 0x7f shifted by 7, the continuation loop leaving with ErrTooLong on the edge i >= K; the bound 2^(6+7K)-1 equals the encoder's limit and the 2^20-1 of the statement. O-3 writer's and reader's tables agree: flag, mask and shift literals of dataPrefixForLength versus ReadData; the padding writer's 3-byte branch (which carries a 0x3f where 0x7f is expected) is dead while the padding buffer is at most 8193 bytes - the checker verifies that precondition. O-4 EOF classes: only the first read of a chunk may return io.EOF unchanged; every later read maps it to io.ErrUnexpectedEOF. O-5 no termination construct on the decode path; the two documented panics (WritePadding(n<0), MaxDataForSize(0)) have no non-test caller. O-6 the codec keeps no shared mutable state: nothing returned or written by the package's functions derives from a package-level variable (concurrent streams would overwrite each other's prefixes). Added after the second seeding round: O-1c at every ReadData call site the call is re-executed only over the err == nil edge of the previous call (no resynchronisation after ErrTooLong or a truncated chunk) and every path from err == nil returns or hands the chunk on before the next ReadData (an empty chunk is delivered, not skipped); O-2 also requires the prefix-length bound to be tested before the continuation byte is read; O-4 accepts the io.EOF mapping inline or in a same-package helper that returns its argument only behind argument != io.EOF; O-6 also counts append/copy into, and method calls on, package-level objects. Added after the third seeding round: the continuation-byte counter restarts for every chunk; the data-channel message handler writes into the receive pipe synchronously (no goroutine per message). Added after the fourth seeding round: O-7/C17 packets queued for encapsulation are private copies of the sender's buffer (C17's copy-on-enqueue obligation). Added after the fifth seeding round: O-8 websocketconn.readLoop copies the message reader itself (no LimitReader/CopyN), and a buffer given to io.CopyBuffer is allocated by the copying function (the two directions of a relay do not share one). Added after the sixth seeding round and the mutation audit: O-1e ReadData reads from its reader parameter itself (a reader type of the repository put in between changes the contract); O-8 websocketconn.readLoop passes over a message only when its type was found to be neither text nor binary.",
+		Explanation: "Reader-contract rule + E-CONST + E-GUARD + E-PANIC on common/encapsulation and its stream feeders. O-1 reader contract: every call of a Read([]byte) (int, error) method must use its count result (or return the pair unchanged), or the read must go through io.ReadFull/ReadAtLeast/CopyN/Copy, which implement the contract for zero-length reads, short reads and data returned together with io.EOF; quick scope: encapsulation and the two packet adapters, thorough: every package. O-1b one reader per stream: the reader handed to encapsulation.ReadData is a pre-existing stream object, not a buffering reader constructed for the single call (its read-ahead would be discarded between packets). O-2 allocation bounded by the announced length: in ReadData the length is built from one byte masked with 0x3f and at most K further bytes masked with 0x7f shifted by 7, the continuation loop leaving with ErrTooLong on the edge i >= K; the bound 2^(6+7K)-1 equals the encoder's limit and the 2^20-1 of the statement. O-3 writer's and reader's tables agree: flag, mask and shift literals of dataPrefixForLength versus ReadData; the padding writer's 3-byte branch (which carries a 0x3f where 0x7f is expected) is dead while the padding buffer is at most 8193 bytes - the checker verifies that precondition. O-4 EOF classes: only the first read of a chunk may return io.EOF unchanged; every later read maps it to io.ErrUnexpectedEOF. O-5 no termination construct on the decode path; the two documented panics (WritePadding(n<0), MaxDataForSize(0)) have no non-test caller. O-6 the codec keeps no shared mutable state: nothing returned or written by the package's functions derives from a package-level variable (concurrent streams would overwrite each other's prefixes). Added after the second seeding round: O-1c at every ReadData call site the call is re-executed only over the err == nil edge of the previous call (no resynchronisation after ErrTooLong or a truncated chunk) and every path from err == nil returns or hands the chunk on before the next ReadData (an empty chunk is delivered, not skipped); O-2 also requires the prefix-length bound to be tested before the continuation byte is read; O-4 accepts the io.EOF mapping inline or in a same-package helper that returns its argument only behind argument != io.EOF; O-6 also counts append/copy into, and method calls on, package-level objects. Added after the third seeding round: the continuation-byte counter restarts for every chunk; the data-channel message handler writes into the receive pipe synchronously (no goroutine per message). Added after the fourth seeding round: O-7/C17 packets queued for encapsulation are private copies of the sender's buffer (C17's copy-on-enqueue obligation). Added after the fifth seeding round: O-8 websocketconn.readLoop copies the message reader itself (no LimitReader/CopyN), and a buffer given to io.CopyBuffer is allocated by the copying function (the two directions of a relay do not share one). Added after the sixth seeding round and the mutation audit: O-1e ReadData reads from its reader parameter itself (a reader type of the repository put in between changes the contract); O-8 websocketconn.readLoop passes over a message only when its type was found to be neither text nor binary. O-9/O-10 in encapsulation and websocketconn a read's error is used and a failure branch never runs on.",
 		NotDecided:  "round-trip equality over all chunk sequences, MaxDataForSize arithmetic, padding length arithmetic (value-level).",
 		Assumptions: []string{"io.ReadFull/io.CopyN implement the io.Reader contract"},
 	}, runC09)
@@ -46,6 +46,8 @@ func runC09(c *Ctx) {
 		c.undecided("O-0 anchors", "encapsulation.ReadData", "-", "anchor does not resolve")
 		return
 	}
+	c.checkDecodeErrorsConsumed("O-9 a read's error is part of the verdict", p.FnsIn("common/encapsulation"))
+	c.checkErrorBranchesLeave("O-10 a failed step ends the function", p.FnsIn("common/encapsulation", "common/websocketconn"))
 	// ReadData reads the caller's reader itself: a reader of the repository's own put in between changes what the
 	// io.Reader contract promises (a wrapper that turns a (0, nil) read into an error rejects a valid stream as soon
 	// as the transport delivers an empty message)
